@@ -30,13 +30,13 @@ func C14(r *core.Report) {
 	c14VerifyHashIsAFunctionOfItsArguments(r)
 	c14EveryFrameFollowedOnce(r)
 	r.Floor("C14.R10", 1)
-	r.Floor("C14.R9", 2)
+	r.Floor("C14.R9", 1)
 	r.Floor("C14.R8", 1)
-	r.Floor("C14.R7", 2)
-	r.Floor("C14.R6", 3)
+	r.Floor("C14.R7", 1)
+	r.Floor("C14.R6", 2)
 	r.Floor("C14.R1", 4)
-	r.Floor("C14.R2", 2)
-	r.Floor("C14.R3", 4)
+	r.Floor("C14.R2", 1)
+	r.Floor("C14.R3", 3)
 	r.Floor("C14.R4", 1)
 }
 
